@@ -57,6 +57,22 @@ func (e *integEngine) checkC12(x *integExpect) {
 		} else {
 			c.Count("c12_cli_run_ended_before_a_listener_acted")
 		}
+		// abort() wakes the application's cancel listeners at once. If a task command was running
+		// at that moment and no listener woke up before it ended, nothing connects this run to
+		// the abort: it cannot be cancelled
+		aCall := e.cancelCalls[0]
+		woke := -1
+		for _, ev := range c.Events {
+			if ev.Kind == "park:cancel-listener" && ev.Seq > aCall && woke < 0 {
+				woke = ev.Seq
+			}
+		}
+		for _, r := range e.execs {
+			if r.StartSeq < aCall && r.EndSeq > aCall && isTaskBlock(r.Info.Block) && !strings.HasPrefix(r.Info.Owner, "ctx:") && r.CtxDoneSeq < 0 && (woke < 0 || woke > r.EndSeq) {
+				c.Violate("C12", "cli-abort-reaches-nobody", "taskctl %v: abort() was called (seq %d) while %s was running and no cancel listener of the application woke up before it ended (seq %d): the run cannot be cancelled", e.w.CLIArgs, aCall, r.Info.Key, r.EndSeq)
+				break
+			}
+		}
 	}
 	tRet := -1
 	if len(e.cancelRets) > 0 {
